@@ -2319,12 +2319,15 @@ impl<'a, E: quiver_core::effects::Effect> Compiler<'a, E> {
             }
         }
 
-        // Patch the skip-cleanup jump and all final-end jumps to current position
+        // Patch the skip-cleanup jump to current position
         if let Some(skip_jump) = skip_cleanup_jump {
             self.codegen.patch_jump_to_here(skip_jump);
         }
+        // When no branch matched, the nil left on the stack is the block's result, but the block
+        // must still leave through the parameter clear like a matched branch does: jumping past
+        // it would leak the parameter local and shift every local stored after the block.
         for jump_addr in final_end_jumps {
-            self.codegen.patch_jump_to_here(jump_addr);
+            self.codegen.patch_jump_to_addr(jump_addr, param_clear_addr);
         }
 
         // Patch end_jumps to go to param clear
